@@ -72,6 +72,8 @@ let max_history = 2 * stack_total + 16
 let popcount n = int_of_n (Bits.popcount64 n)
 
 let () =
+  register "stuck" (fun i o ->
+    [Specfail ("c03_hand_terminates", "random line of play " ^ i.(1) ^ " is still going after " ^ o.(0) ^ " actions (the bound is 2 * STACK + 16)")]);
   register "st" (fun i o ->
     let d = deck () in
     let hist = hist_of_string i.(1) in
